@@ -109,6 +109,21 @@ Theorem C01_session_decider_sound : forall l, check_cmds l tt = true -> Cmds_hol
 Proof. exact CommandProof.session_decider_sound. Qed.
 Print Assumptions C01_session_decider_sound.
 
+(* sessions never leave the domain: the rows a successful command of the domain leaves are the names of a version table
+   of the domain again (ids of the history, duplicate-free, the maximal elements of their own closure), so the
+   hypothesis `cmd_pre` has to be assumed for the first command of a session only (a refused command leaves the rows
+   it found: Cmd_holds) *)
+From AV Require Proofs.SessionProof.
+Theorem C01_session_state_preserved : forall i ran rows,
+  cmd_pre i = true -> run_command i = COk ran rows ->
+  match resolve_cmd i with
+  | RPlanUp G rowsN _ _ | RPlanDown G rowsN _ _ _ =>
+      exists rws, rows = names (c_revs i) rws /\ state_okb G rws = true
+  | _ => False
+  end.
+Proof. exact SessionProof.command_state_preserved. Qed.
+Print Assumptions C01_session_state_preserved.
+
 Definition ex_cmd : cmd_in :=
   mkCmd [R.mkS [97;49;98;50;99]%N [] [] []; R.mkS [98;50;99;51;100]%N [[97;49;98;50;99]%N] [] [[108;97;98;48]%N]; R.mkS [99;51;100;52;101]%N [[97;49;98;50;99]%N] [] []; R.mkS [100;52;101;53;102]%N [[98;50;99;51;100]%N; [99;51;100;52;101]%N] [] []; R.mkS [101;53;102;54;97]%N [] [[98;50;99;51;100]%N] []]
         [([98;50;99;51;100]%N, [100;52;101;53;102]%N)] [] [[99;51;100;52;101]%N] true [104;101;97;100;115]%N.
